@@ -26,7 +26,8 @@ default of `pepper-design-spurious`), and `end_to_end_struct` (structure layout,
 occurs in a structure — otherwise `get_constraints` itself raises).
 Hypotheses: the decidable bundle hypotheses of C01/C02 (`bundleOk`), and `MfeNamesDistinct spec` — the `.mfe` file has
 ONE namespace for structures, sequences and starred sequences; without it the property is FALSE (known finding F13:
-`sequence X`, `structure X`; the harness keeps the probe).  Two facts a reader should know, both visible in `SatSrc`:
+`sequence X`, `structure X`; the harness keeps the probe).  For compiled trees it reduces to the genuine content of
+F13, `StructSeqApart spec`: no structure is named like a (starred) sequence (`mfe_names_distinct_of_compile`).  Two facts a reader should know, both visible in `SatSrc`:
 * an UNDESIGNED sequence (one that lies on no strand) keeps its template in the `.mfe` and hence in the `.seqs` file:
   `spellT` writes the base on designed positions and the template code elsewhere;
 * signal connector sequences are part of the design (`d.seqs`) but not of the saved tree, so they have no entry:
@@ -335,6 +336,19 @@ theorem end_to_end_struct {b : Sys.Bundle} {fuel : Nat} {base : String} {args : 
   cases hload'
   obtain ⟨asg, assigned, out, hpr, hout, hap, hsat, hent⟩ := hrest hp hne hn a ha nts hg
   exact ⟨d, ports, asg, assigned, out, hden, hpr, hout, hap, hsat, hent, asg, hsat, hent⟩
+
+/-- **The name hypothesis is exactly F13.**  For the specification a compiled tree loads to (bundle hypotheses of C02),
+    `MfeNamesDistinct` follows from `StructSeqApart spec`: no structure is named like a sequence or a starred sequence.
+    (Structure names are distinct because the loader rejects duplicates, sequence names likewise, and no sequence name
+    ends in `*`: component sequences are `pfx ++ n` with `endsOk n`, signal sequences `pfx ++ sg` with `sigNameOk sg`.)
+    So `end_to_end` holds with `StructSeqApart spec` in place of `MfeNamesDistinct spec`. -/
+theorem mfe_names_distinct_of_compile {b : Sys.Bundle} {fuel : Nat} {base : String} {args : Nat}
+    {argKey pfx path : String} {includes : List String} {anon : Nat} {inst : Sys.Inst} {a' : Nat}
+    (hfile : Sys.loadFile b fuel base args argKey pfx path includes anon = .ok (inst, a'))
+    (hb : SysProofs.bundleOk Generated.nupackTable b = true) {spec : Spec}
+    (hload : Pil.load Generated.nupackTable (Emit.instStmts inst) {} = .ok spec) (h : StructSeqApart spec) :
+    MfeNamesDistinct spec :=
+  mfeNamesDistinct_of_compile hfile hb hload h
 
 /-- PARTIAL — the text level.  Missing: that the records `output` writes are readable by the `.mfe` reader (`wfRec`:
     every name over the reader's name alphabet, no empty sequence) is a HYPOTHESIS here (decidable, `hwf`), not derived
